@@ -1,3 +1,4 @@
 import Iodata.Props.C10
 import Iodata.Props.C06
 import Iodata.Props.C06Tables
+import Iodata.Props.C04
